@@ -151,6 +151,30 @@ WEIRD = [
 	'"src"', '"src/"', '"a/b', 'a/b.h', '<é.h>', '"é/ü.h"', '"a b/c.h"', '!a', '~/x']
 
 
+# one row per class the comparison distinguishes among <...> includes (the property's "system C/C++, external, boost-like"), several
+# members each: every law of the order is tried on sets that hold members of several rows
+ANGLE_CLASSES = {
+	'external, .h': ['<openssl/evp.h>', '<donna/curve25519.h>', '<openssl/sha.h>'],
+	'external, no .h': ['<openssl/sha.hpp>', '<donna/x.hpp>'],
+	'boost-like, no .h': ['<boost/asio.hpp>', '<boost/optional.hpp>', '<mongocxx/client.hpp>', '<bsoncxx/json.hpp>'],
+	'boost-like, .h': ['<boost/x.h>', '<rocksdb/db.h>', '<benchmark/benchmark.h>'],
+	'system c++': ['<vector>', '<string>', '<memory>', '<sys/x>'],
+	'system c': ['<stdio.h>', '<sys/types.h>', '<unistd.h>', '<ref10/crypto_verify_32.h>']}
+QUOTE_CLASSES = {
+	'sibling': ['"a.h"', '"Z.h"'], 'other': ['"x/a.h"', '"x/b/c.h"'], 'src': ['"src/a.h"', '"src/b/c.h"'], 'extension': ['"mongo/a.h"', '"zeromq/a.h"'],
+	'plugins': ['"plugins/a.h"', '"plugins/b/c.h"'], 'catapult': ['"catapult/types.h"', '"catapult/b/c.h"'],
+	'symbol': ['"symbol/a.h"', '"symbol/extended/b/c.h"', '"symbol/txes/a.h"'], 'tests': ['"tests/a.h"', '"test/a.h"', '"plugins/tests/a.h"', '"catapult/tests/a.h"']}
+
+
+def class_set(rng, size, angle_only=False):
+	"""`size` includes of pairwise different classes (one member each); at least two of them <...> classes."""
+	angle = rng.sample(sorted(ANGLE_CLASSES), min(size, len(ANGLE_CLASSES)) if angle_only else rng.randrange(2, min(size, len(ANGLE_CLASSES)) + 1))
+	quote = rng.sample(sorted(QUOTE_CLASSES), size - len(angle))
+	chosen = [rng.choice(ANGLE_CLASSES[name]) for name in angle] + [rng.choice(QUOTE_CLASSES[name]) for name in quote]
+	rng.shuffle(chosen)
+	return chosen
+
+
 def synth_include(rng):
 	kind = rng.randrange(10)
 	if kind < 5:
@@ -537,6 +561,10 @@ def part_comparator(check, cps, hp):
 		'"symbol/txes/b/c.h"', '"tests/a.h"', '"test/a.h"', '"plugins/tests/a.h"', '"symbol/extended/tests/a.h"', '"symbol/tests/a.h"',
 		'"catapult/tests/a.h"', '<vector>', '<boost/x.h>']
 	fixed_sets = [lattice[k:k + 12] for k in range(0, len(lattice), 6)] + [lattice[::2], lattice[1::2]]
+	# every class of <...> include against every other: all members at once, then one member per class (every combination of first / last member)
+	fixed_sets.append([member for members in ANGLE_CLASSES.values() for member in members])
+	fixed_sets += [[members[pick] for members in ANGLE_CLASSES.values()] + ['"a.h"', '"catapult/types.h"'] for pick in (0, -1)]
+	fixed_sets += [class_set(rng, 8) for _ in range(4 if check.tier == 'quick' else 40)]
 	for number in range(sets + len(fixed_sets)):
 		items = fixed_sets[number] if number < len(fixed_sets) else include_pool(rng, 12, rng.choice([0.0, 0.5, 1.0]))
 		matrix = [[py_lt(cps, hp, a, b) == 'T' for b in items] for a in items]
@@ -554,6 +582,12 @@ def part_sort(check, cps, hp):
 	for _ in range(count):
 		size = rng.choice([2, 3, 4, 5, 5])
 		sets.append(include_pool(rng, size, rng.choice([0.0, 0.5, 1.0]))[:size])
+	# sets that hold one include of each of several classes (two or more of them <...> classes), and every pair / triple of <...> classes
+	for _ in range(10 if check.tier == 'quick' else 150):
+		sets.append(class_set(rng, rng.choice([3, 4, 5])))
+	names = sorted(ANGLE_CLASSES)
+	for group in list(itertools.combinations(names, 2)) + list(itertools.combinations(names, 3)):
+		sets.append([rng.choice(ANGLE_CLASSES[name]) for name in group])
 	models = coq_eval(PRELUDE, [f'render_sort {clist(s)}' for s in sets], 'c20sort', shard=50)
 	for items, mod in zip(sets, models):
 		orders = set()
@@ -591,6 +625,67 @@ def entry_include_set(rng, root, filename):
 	return [(inc, rng.choice(['', '', ' // note', '\t/* c */'])) for inc in chosen]
 
 
+INCLUDE_LINE = re.compile(r'#include ("[^"<>]+"|<[^"<>]+>)([ \t].*)?')
+
+
+def file_with_includes(filename, pairs):
+	"""A small source file whose include lines are `pairs` (include, rest of the line) in the written order, other lines around and between."""
+	lines = ['/** a file **/', '#pragma once'] if filename.endswith('.h') else ['/** a file **/']
+	for index, (inc, rest) in enumerate(pairs):
+		lines.append('#include ' + inc + rest)
+		if index == 1:
+			lines.append('// a comment between includes')
+	return '\n'.join(lines + ['', 'namespace catapult { namespace foo {', '\tstruct Bar;', '}}', ''])
+
+
+def lint_includes_of_file(cps, hp, work, root, filename, ruleset, text):
+	"""The file `text`, stored under its name, read by the real HeaderParser and given to Entry.check_includes as the file root/filename.
+	Returns (line numbers of the includes the order rule looks at, [(include, rest)] as read, proposed lines or None) or 'crash:<name>'."""
+	path = work / 'rewrite' / filename
+	path.parent.mkdir(exist_ok=True)
+	path.write_text(text, encoding='utf8', newline='')
+	collector = Collector()
+	try:
+		parser, _ = parse_real(hp, path)
+		entries = [e for e in include_entries(cps, hp, parser) if not cps.is_special_include(e.include)]
+		slots = [e.lineno for e in entries]
+		read = [(e.include, e.rest) for e in entries]
+		with quiet():
+			cps.Entry(root, filename, ruleset).check_includes(collector, parser.preprocessor)
+	except Exception as ex:  # pylint: disable=broad-except
+		return f'crash:{type(ex).__name__}: {ex}'
+	complaint = collector.of('includesOrder')
+	return slots, read, [str(x) for x in complaint[0].includes] if complaint else None
+
+
+def rewrite_problem(cps, hp, work, root, filename, ruleset, text):
+	"""'Rewriting a file's includes in the order the linter proposes yields a file about which it has no such complaint, leaves every
+	other line unchanged, and changes nothing when applied a second time': the proposal (the lines the includesOrder report prints) is put
+	in place of the file's include lines and the file is linted again; when every include line is well formed as written
+	(`#include "..."` / `#include <...>`, then nothing or a blank and a comment), so is every line of the proposal.
+	Returns (signature stem, description) or None."""
+	first = lint_includes_of_file(cps, hp, work, root, filename, ruleset, text)
+	if isinstance(first, str) or first[2] is None:
+		return None
+	slots, _, proposal = first
+	if len(proposal) != len(slots):
+		return 'proposal-size', f'{len(slots)} includes written, {len(proposal)} lines proposed: {proposal}'
+	lines = text.split('\n')
+	written_well_formed = all(INCLUDE_LINE.fullmatch(lines[slot - 1]) for slot in slots)
+	for slot, line in zip(slots, proposal):
+		lines[slot - 1] = line
+	second = lint_includes_of_file(cps, hp, work, root, filename, ruleset, '\n'.join(lines))
+	malformed = [line for line in proposal if not INCLUDE_LINE.fullmatch(line)]
+	if malformed and written_well_formed:
+		after = f'cannot be linted any more: {second[6:]}' if isinstance(second, str) else 'is accepted' if second[2] is None else f'is told to use {second[2]}'
+		return 'proposal-malformed', f'the proposed order holds {malformed} - not include lines (proposal: {proposal}); the file rewritten to it {after}'
+	if isinstance(second, str):
+		return 'proposal-not-accepted', f'the file rewritten to the proposal {proposal} cannot be linted any more: {second[6:]}'
+	if second[2] is not None:
+		return 'proposal-still-complained', f'the file rewritten to the proposal {proposal} is told to use yet another order: {second[2]}'
+	return None
+
+
 def cpp_term(spec):
 	if spec is None:
 		return 'None'
@@ -599,16 +694,28 @@ def cpp_term(spec):
 	return f'(Some (OwnIs {cstr(spec[1])}))'
 
 
-def part_propose(check, cps, hp):
+def part_propose(check, cps, hp, work):
 	rng = check.rng
 	count = 150 if check.tier == 'quick' else 3000
 	cases = []
-	for i in range(count):
+	for i in range(count + 2 * len(ENTRY_CASES)):
 		root, filename = ENTRY_CASES[i % len(ENTRY_CASES)]
 		ruleset = ruleset_of(cps, root)
 		entry = cps.Entry(root, filename, ruleset)
 		spec = own_spec(entry, entry.full_path())
-		cases.append((root, filename, ruleset, entry, spec, entry_include_set(rng, root, filename)))
+		if i < count:
+			pairs = entry_include_set(rng, root, filename)
+		elif i < count + len(ENTRY_CASES):
+			# every path shape with headers of the file's own directory spelled by their full path (what Entry.fix_relative is there for)
+			own_dir = re.sub(r'^src/', '', root.replace('\\', '/')) + '/'
+			stem = filename.rsplit('.', 1)[0]
+			pairs = [(f'"{own_dir}Other.h"', ''), ('<memory>', ''), ('"catapult/types.h"', rng.choice(['', ' // note'])), (f'"{own_dir}{stem}Utils.h"', ''),
+				(f'"{stem[:-5] if stem.endswith("Tests") else stem}.h"', ''), (f'"{own_dir}sub/Deep.h"', '')]
+			pairs = rng.sample(pairs, rng.randrange(3, len(pairs) + 1))
+		else:
+			# every path shape with includes of several classes, two or more of them <...> classes
+			pairs = [(inc, '') for inc in class_set(rng, rng.choice([2, 3, 4, 5]))]
+		cases.append((root, filename, ruleset, entry, spec, pairs))
 	exprs = []
 	for root, filename, ruleset, entry, spec, pairs in cases:
 		exprs.append(f'render_check_all {cstr(entry.include_fix_own_path)} {cpp_term(spec if not (spec and spec[0] == "crash") else None)} '
@@ -636,8 +743,22 @@ def part_propose(check, cps, hp):
 			check.disagree('Propose.check_includes-vs-Entry.check_includes', {'path': full_path, 'includes': includes}, out, mod)
 		if index % max(1, count // 3) == 0:
 			check.sample({'check_includes': {'path': full_path, 'includes': includes}, 'observed': out})
+		if out.startswith('crash'):
+			continue
+		# oracle on a real file: written, read by the real reader, rewritten to the printed proposal, linted again
+		for written in ([pairs] if len(pairs) < 2 else [pairs, rng.sample(pairs, len(pairs))]):
+			text = file_with_includes(filename, written)
+			linted = lint_includes_of_file(cps, hp, work, root, filename, ruleset, text)
+			if isinstance(linted, str) or linted[1] != [pair for pair in written if not cps.is_special_include(pair[0])]:
+				check.case('rewrite-file:not-read-as-written', (full_path, tuple(written)), False)
+				continue
+			check.case('rewrite-file:' + ('rewritten' if linted[2] else 'quiet'), (full_path, tuple(written)))
+			problem = rewrite_problem(cps, hp, work, root, filename, ruleset, text)
+			if problem:
+				check.fail(f'{problem[0]}:{digest(full_path, written)}', f'{full_path} with the includes {[inc for inc, _ in written]}: {problem[1]}',
+					{'kind': 'rewrite-file', 'root': root, 'filename': filename, 'content': text})
 		# oracle: every written order of the same includes draws the same proposal; the proposal draws no complaint
-		if out.startswith('crash') or len(pairs) > 5:
+		if len(pairs) > 5:
 			continue
 		proposals = set()
 		for perm in itertools.permutations(pairs):
@@ -857,7 +978,10 @@ def run(check, unrecognised):
 		'streams never add trailing blanks)',
 		're `\\w` is exact for ASCII only (used for the unknown-directive crash, not for the fixer)']
 	check.extra['rule'] = 'pairs/triples/sets drawn from the tree\'s distinct include strings and synthetic includes of every class; ' \
-		'Entry cases over 16 path shapes x random include sets; tree files with shuffled include lines; tree files with mis-indented ' \
+		'sets with one include of each of several comparator classes (every pair / triple of the six <...> classes: external with and ' \
+		'without .h, boost-like with and without .h, system C / C++); Entry cases over 16 path shapes x random include sets, x sets spelling headers ' \
+		'of the file\'s own directory by their full path, x class-stratified sets, each also as a real file that is rewritten to the printed ' \
+		'proposal and linted again; tree files with shuffled include lines; tree files with mis-indented ' \
 		'preprocessor lines + 13 synthetic files; distinct = distinct input, non-trivial = all but a==b pairs and own-path probes'
 	own_unrecognised = list(unrecognised.get('IncludeOrderOps', []))
 	own_unrecognised += [key for key, status in check.shape_report.items() if key.startswith(OWN_KEYS) and status != 'recognised' and key not in own_unrecognised]
@@ -872,7 +996,7 @@ def run(check, unrecognised):
 	try:
 		part_comparator(check, cps, hp)
 		part_sort(check, cps, hp)
-		part_propose(check, cps, hp)
+		part_propose(check, cps, hp, work)
 		part_tree_files(check, cps, hp, work)
 		part_indent(check, cps, hp, work)
 		part_cli(check, work)
@@ -911,6 +1035,19 @@ def replay(data):
 			bad = bad or again.split('|')[1][0] != 'F'
 		print('property:', 'fails' if bad else 'holds')
 		return 1 if bad else 0
+	if kind == 'rewrite-file':
+		work = scratch_dir('c20-replay')
+		try:
+			ruleset = ruleset_of(cps, info['root'])
+			print('file', os.path.join(info['root'], info['filename']) + ':')
+			print(info['content'])
+			linted = lint_includes_of_file(cps, hp, work, info['root'], info['filename'], ruleset, info['content'])
+			print('proposed:', linted if isinstance(linted, str) else linted[2])
+			problem = rewrite_problem(cps, hp, work, info['root'], info['filename'], ruleset, info['content'])
+			print('property:', f'fails ({problem[0]}): {problem[1]}' if problem else 'holds')
+			return 1 if problem else 0
+		finally:
+			shutil.rmtree(work, ignore_errors=True)
 	if kind in ('fix-indents', 'cli'):
 		import validation  # pylint: disable=import-error,import-outside-toplevel
 		work = scratch_dir('c20-replay')
